@@ -2,6 +2,7 @@
 """Per-property correspondence / predicate checks (the `Tie` and `Search` parts of DESIGN section 7)."""
 import os, sys, json, random
 from vlib import *
+import vlib
 import gens
 import importlib
 chk = sys.modules["__main__"]
@@ -302,6 +303,14 @@ def run_C05(ctx, rng, tier, res, known):
         cases += truncated_compact_cases(rng, f, 400 if q else 20000)
         cases += gens.gen_seams(rng, f)[::2]
         cases += gens.gen_bigint_ties(rng, f, 1200 if q else 30000)
+        cases += gens.gen_near_tie_posexp(rng, f, 1000 if q else 30000)
+        # the (w, q) pairs whose 128-bit product has an all-ones low word (the fall-back inside Eisel-Lemire
+        # that only the non-compact builds have), as parser inputs
+        tbl = gens.read_lemire_table(os.path.join(WORK, "dump.std.txt"))
+        for line, fam in gens.gen_mp_allones(f, tbl) + gens.gen_mp_exact_guard(rng, f):
+            t = line.split()
+            if int(t[2]) < 10 ** 19:
+                cases.append((gens.pf(f, t[2], "" if t[4] == "0" else str(rng.randint(1, 99999)), int(t[3])), fam + ">pf"))
         cases += _mod().cases_long(rng, "quick", f)[:: (6 if q else 1)]
         fq = _mod().focus_q_from_tables()
         if fq:
@@ -345,6 +354,7 @@ def run_C06(ctx, rng, tier, res, known):
     for f in ("f32", "f64"):
         cases += _mod().cases_long(rng, tier, f)
         cases += gens.gen_bigint_ties(rng, f, 1200 if tier == "quick" else 30000)
+        cases += gens.gen_near_tie_posexp(rng, f, 1200 if tier == "quick" else 30000)
     _mod().check_pf("C06", cases, ctx.cfgs, ctx.profiles, res, known)
     # internal-stage detector for parse_mantissa (digit bookkeeping); never a verdict by itself
     pm = []
@@ -481,11 +491,22 @@ def cross_target_pass(ctx, rng, res, cases, n=140):
     with ThreadPoolExecutor(max_workers=min(len(jobs), 12)) as ex:
         results = list(ex.map(lambda j: run_miri(j[1], parts[j[2]], target=j[0]), jobs))
     specparts = [spec[i::3] for i in range(3)]
+    m32 = {}
+    if vlib.TABLE32_FOUND:
+        # the 32-bit-limb instance of the model (Model/BigintW.lean, Props/Limb32.lean) on the same inputs
+        for c in set(c for (t, c) in combos if t.startswith("i686")):
+            mo = [_mod().parse_model(x)[0] for x in run_model(c + "@32", "release", sel)]
+            m32[c] = [mo[i::3] for i in range(3)]
     for (target, c, k), (out, ub) in zip(jobs, results):
         tot += len(out)
         for line, o, sp in zip(parts[k], out, specparts[k]):
             if sp is not None and o != sp:
                 res.viol.append(("wrong-result-cross-target", dict(case=line, cfg=c, target=target, impl=o, spec=sp)))
+        if target.startswith("i686") and c in m32:
+            for line, o, mo in zip(parts[k], out, m32[c][k]):
+                res.extra["limb32_model_cases"] = res.extra.get("limb32_model_cases", 0) + 1
+                if o != mo:
+                    res.drift.append(dict(case=line[:300], cfg=c, target=target, impl=o, model=mo, note="32-bit-limb model differs from the i686 run"))
         if ub is not None:
             if ub.get("is_ub"):
                 res.viol.append(("miri-undefined-behaviour", dict(case=ub["case"], cfg=c, target=target, message=ub["message"])))
@@ -493,6 +514,59 @@ def cross_target_pass(ctx, rng, res, cases, n=140):
                 res.fault.append(dict(why="cross-target miri run failed", cfg=c, target=target, message=ub["message"][:300]))
     res.evals += tot
     res.extra["cross_target_cases"] = res.extra.get("cross_target_cases", 0) + tot
+
+def limb32_bigint_pass(ctx, rng, res, n=160):
+    """supporting check (thorough): the big-integer operations of the 32-bit-limb build (u32 limbs, 125-limb
+    stack vectors, three-limb hi64, 5^13 steps, 10-limb 5^135) interpreted by Miri for i686, against the
+    32-bit instance of the model (Model/BigintW.lean; theorems Props/Limb32.lean) and the natural-number spec."""
+    if not vlib.TABLE32_FOUND:
+        res.extra["limb32"] = "skipped: the source has no 32-bit LARGE_POW5 table any more"
+        return
+    cases = [c[0] for c in gens.gen_bigint(rng, 40 * n, W=32) if len(c[0]) < 2500]
+    from concurrent.futures import ThreadPoolExecutor
+    cfgs = [c for c in ("std", "std+alloc", "std+compact") if c in ctx.cfgs]
+    jobs = []
+    for c in cfgs:
+        sel = rng.sample(cases, min(len(cases), 4 * n))
+        for k in range(4):
+            jobs.append((c, sel[k::4]))
+    with ThreadPoolExecutor(max_workers=min(len(jobs), 12)) as ex:
+        results = list(ex.map(lambda j: run_miri(j[0], j[1], target="i686-unknown-linux-gnu"), jobs))
+    tot = 0
+    for (c, lines), (out, ub) in zip(jobs, results):
+        cap = None if "alloc" in c else 125
+        model = run_model(c + "@32", "release", lines[:len(out)])
+        for line, I, M in zip(lines, out, model):
+            tot += 1
+            m, s = split_ms(M)
+            op = line.split()[1]
+            if I.startswith("panic"):
+                if op == "mulassign" and m == "panic":
+                    continue
+                res.viol.append(("panic-32bit-limbs", dict(case=line, cfg=c, target="i686", impl=I, model=m[:200])))
+                continue
+            if I != m:
+                if cap is None and I == "none" and op in ("shl", "shl_limbs", "bpow"):
+                    continue        # heap shl_limbs compares against Vec::capacity(), which the model does not track
+                res.drift.append(dict(case=line[:400], cfg=c, target="i686", impl=I[:200], model=m[:200], note="32-bit-limb model differs"))
+            if s is not None and op not in ("compare", "hi64", "bit_length") and I not in ("none", "ctor-none"):
+                try:
+                    got = sum(v << (32 * i) for i, v in enumerate(parse_l(I.split()[0])))
+                except ValueError:
+                    got = None
+                if got is not None and str(got) != s.split()[0]:
+                    res.viol.append(("inexact-32bit-limbs", dict(case=line, cfg=c, target="i686", impl=I[:300], expected_nat=s[:200])))
+                if cap is not None and I != "-" and len(parse_l(I.split()[0])) > cap:
+                    res.viol.append(("over-capacity-32bit-limbs", dict(case=line, cfg=c, target="i686", impl=I[:300])))
+            elif s is not None and I != s:
+                res.viol.append(("wrong-32bit-limbs", dict(case=line, cfg=c, target="i686", impl=I, expected=s)))
+        if ub is not None:
+            if ub.get("is_ub"):
+                res.viol.append(("miri-undefined-behaviour", dict(case=ub["case"], cfg=c, target="i686", message=ub["message"])))
+            else:
+                res.fault.append(dict(why="i686 miri run failed", cfg=c, message=ub["message"][:300]))
+    res.evals += tot
+    res.extra["limb32_bigint_cases"] = tot
 
 def miri_valid_slow_cases(rng):
     out = []
@@ -563,6 +637,17 @@ def run_C09(ctx, rng, tier, res, known):
                     pa = rng.choice(gens.placements(rng, x[0], x[1], 1))
                     pb = rng.choice(gens.placements(rng, y[0], y[1], 1))
                     pairs.append((gens.pf(f, *pa), gens.pf(f, *pb), "P-boundary"))
+            # the same tie with the deciding digit written two ways: x = tie + 10^-(far) through the fraction
+            # loop, y = tie + 10^-(near) with the integer part alone filling the MAX_DIGITS cut (x < y)
+            if rng.random() < 0.4:
+                md = gens.FMT[f]["maxdig"]
+                pad = max(0, md + rng.choice([-1, 0, 1, 4]) - len(digs))
+                z = rng.choice([0, 1, 9])
+                ya, yb, ye = digs + "0" * pad, "0" * z + "1", e - pad
+                xa, xb, xe = digs, "0" * (pad + z + rng.choice([1, 7, 40])) + "1", e
+                if all(gens.I32MIN <= v <= gens.I32MAX for v in (ye, xe)):
+                    pairs.append((gens.pf(f, xa, xb, xe), gens.pf(f, ya, yb, ye), "P-intcut"))
+                    pairs.append((gens.pf(f, digs, "", e), gens.pf(f, ya, yb, ye), "P-tie<intcut"))
     lines = []
     for a, b, fam in pairs:
         lines += [a, b]
@@ -599,6 +684,10 @@ def run_C10(ctx, rng, tier, res, known):
     groups = []
     for f in ("f32", "f64"):
         base = gens.gen_boundary(rng, f, 500 if q else 10000, point=False) + gens.gen_random_valid(rng, f, 400 if q else 10000)
+        # ties padded to the MAX_DIGITS cut with the deciding digit beyond it (every way of splitting those)
+        lng = [c for c in _mod().cases_long(rng, "quick", f) if len(c[0]) < 4000]
+        base += rng.sample(lng, min(len(lng), 250 if q else 4000))
+        md = gens.FMT[f]["maxdig"]
         for line, fam in base:
             t = line.split()
             a = "" if t[2] == "-" else None
@@ -616,6 +705,9 @@ def run_C10(ctx, rng, tier, res, known):
                 continue
             n = len(stripped)
             splits = set([0, n, min(n, 1), min(n, 19), min(n, 20), rng.randint(0, n), rng.randint(0, n)])
+            if n > 30:
+                # 19-digit chunk ends, the MAX_DIGITS cut, and just before the last digit
+                splits |= set(min(n, v) for v in (38, 57, md - 1, md, md + 1, md + rng.randint(2, 12), n - 1))
             for p in splits:
                 ia, fb = stripped[:p], stripped[p:]
                 x = e10 + len(fb)
@@ -771,6 +863,8 @@ def run_C12(ctx, rng, tier, res, known):
                     res.nontrivial.add(line)
     for i in range(0, len(lines), max(1, len(lines) // 6)):
         res.samples.append(dict(case=lines[i][:200]))
+    if not q:
+        limb32_bigint_pass(ctx, rng, res)
     return {}
 
 # ------------------------------------------------------------------ C13
